@@ -116,16 +116,19 @@ def check_ts_machinery(P, R, rid, per_instance=True):
     R.ob(rid, w, made[0] if made else w.node, ok, text='setattr(cls, p, make_prop(p)) for p in props', detail='' if ok else
          'the decorator does not replace every listed attribute by a thread-local property')
     # accessors reach the store through the instance
+    tsp = P.func(f'{CH}:ts_props')
+    store_param = tsp.node.args.kwonlyargs[0].arg if tsp.node.args.kwonlyargs else 'store_name'
+    key_param = mp.params[0] if mp.params else 'k'
     for name in ('fget', 'fset', 'fdel'):
         a = P.func(f'{CH}:ts_props.wrapper.make_prop.{name}')
         sp = a.params[0]
         inner = [c for c in ast.walk(a.node) if isinstance(c, ast.Call) and dotted(c.func) == 'getattr' and len(c.args) >= 2
-                 and isinstance(c.args[0], ast.Name) and c.args[0].id == sp and src(c.args[1]) == 'store_name']
+                 and isinstance(c.args[0], ast.Name) and c.args[0].id == sp and src(c.args[1]) == store_param]
         outer = [c for c in ast.walk(a.node) if isinstance(c, ast.Call) and dotted(c.func) in ('getattr', 'setattr', 'delattr')
                  and c.args and any(c.args[0] is i for i in inner)]
         ok = bool(inner) and bool(outer)
         free = {n.id for n in ast.walk(a.node) if isinstance(n, ast.Name) and isinstance(n.ctx, ast.Load)} - set(a.params) \
-            - {'getattr', 'setattr', 'delattr', 'k', 'store_name'}
+            - {'getattr', 'setattr', 'delattr', key_param, store_param}
         R.ob(rid, a, a.node, ok and not free, text=f'{name}: getattr(getattr({sp}, store_name), k)', detail='' if ok and not free else
              (f'the accessor reads the closure variable(s) {sorted(free)} instead of the store of the instance it is called on'
               if free else 'the accessor does not go through the instance\'s own store'),
